@@ -33,6 +33,8 @@ func init() {
 			{ID: "C09.R14", Text: "members that the leader numbers never share a number: every round re-sends (i+2, n+1) to every registered follower at its join-ordered position (same rule as C10.R20)", Run: leaderMonitorRound},
 			{ID: "C09.R15", Text: "a follower that registered before the new leader's callback ran keeps its place: role callbacks touch the registry only through their own steps (same rule as C10.R22)", Run: leaderRoles},
 			{ID: "C09.R16", Text: "a dead follower leaves the group (its chunk is re-assigned): the heart-beat removes exactly the followers whose ping failed, and Retry reports nil ⇔ some attempt succeeded (same rule as C10.R7)", Run: c10r7},
+			{ID: "C09.R17", Text: "the member number of a static group is the one written in the file: an unresolved ${VAR} stays a literal the numeric field refuses, it never becomes the default member 1 (same rule as C17.R4)", Run: c17r4},
+			{ID: "C09.R18", Text: "a follower takes the number its leader sends, from whichever connection it arrives: the RPC handler announces exactly the payload, unconditionally (same rule as C10.R23)", Run: rpcAgreement},
 			{ID: "C09.R3", Text: "purity: no globals, goroutines, map ranges; ChunkSlice calls only builtins; Get calls only GetInfo, ChunkSlice and the logger", Run: c09r3},
 		},
 	})
